@@ -26,6 +26,8 @@ var vfE4Slots = []vfE4Slot{
 	{"hA", "nA", "v1", 4150, 4151},
 	{"hB", "nB", "v1", 4150, 4151},
 	{"hA", "nC", "v2", 5150, 4151},
+	// slot 3: the broadcast address of slots 0/2 with ANOTHER HTTP port — a tombstone for "hA:4151" must not touch it
+	{"hA", "nD", "v1", 4150, 4152},
 }
 
 func vfE4H(s string) string { return vfHex([]byte(s)) }
@@ -286,12 +288,12 @@ func TestVerifE4Random(t *testing.T) {
 	defer out.Close()
 	out.Case(env.ConfLine("fixed"), "conf")
 	r := vfNewRand(1400 + uint64(shard))
-	g := vfE4NewGen(env, 3)
+	g := vfE4NewGen(env, 4)
 	for h := 0; h < n; h++ {
 		out.Case("reset", env.Exec("reset"))
 		g.reset()
 		for i := 0; i < L; i++ {
-			op := vfE4RandomOp(r, 3)
+			op := vfE4RandomOp(r, 4)
 			// mostly-valid: registering on an unidentified slot closes it; keep that rare
 			if (op.kind == "register" || op.kind == "unregister") && !g.ident[op.slot] && r.Intn(8) != 0 {
 				op = vfE4Op{kind: "identify", slot: op.slot}
